@@ -18,6 +18,7 @@ import (
 	"encoding/pem"
 	"fmt"
 	"math/big"
+	"strings"
 	"time"
 
 	"github.com/google/gce-tcb-verifier/cmd/output"
@@ -193,6 +194,36 @@ func main() {
 	} {
 		p := withCert(cv.cert)
 		structural = append(structural, mk(cv.name, p, sign(cv.key, p)))
+	}
+	// Look-alike chains: a certificate that copies the genuine signing certificate's subject, issuer
+	// name, serial number and validity but carries another key, issued by (a) a self-made root that
+	// copies the genuine root's names and serial, (b) nobody (self-signed under the copied names).
+	// Nothing but the signature over the certificate distinguishes these from the genuine one.
+	{
+		fakeRootKey := F.RootKey
+		rt := &x509.Certificate{SerialNumber: A.RootCert.SerialNumber, Subject: A.RootCert.Subject, Issuer: A.RootCert.Subject,
+			NotBefore: A.RootCert.NotBefore, NotAfter: A.RootCert.NotAfter, IsCA: true, BasicConstraintsValid: true,
+			KeyUsage: x509.KeyUsageCertSign, SignatureAlgorithm: x509.SHA256WithRSAPSS, SubjectKeyId: A.RootCert.SubjectKeyId}
+		fakeRootDer, err := x509.CreateCertificate(rand.Reader, rt, rt, &fakeRootKey.PublicKey, fakeRootKey)
+		if err != nil {
+			mc.Fatal("look-alike root: %v", err)
+		}
+		fakeRoot, _ := x509.ParseCertificate(fakeRootDer)
+		lt := &x509.Certificate{SerialNumber: A.SignCert.SerialNumber, Subject: A.SignCert.Subject,
+			NotBefore: A.SignCert.NotBefore, NotAfter: A.SignCert.NotAfter, KeyUsage: A.SignCert.KeyUsage,
+			SignatureAlgorithm: x509.SHA256WithRSAPSS, AuthorityKeyId: A.SignCert.AuthorityKeyId}
+		for _, la := range []struct {
+			name   string
+			parent *x509.Certificate
+			key    *rsa.PrivateKey
+		}{{"cert-lookalike-from-lookalike-root", fakeRoot, fakeRootKey}, {"cert-lookalike-signed-by-own-key", lt, A.SiblingKey}} {
+			der, err := x509.CreateCertificate(rand.Reader, lt, la.parent, &A.SiblingKey.PublicKey, la.key)
+			if err != nil {
+				mc.Fatal("look-alike leaf: %v", err)
+			}
+			pl := withCert(der)
+			structural = append(structural, mk(la.name, pl, sign(A.SiblingKey, pl)))
+		}
 	}
 	// Certificates for the sibling key issued by the genuine root with another signature algorithm,
 	// and the endorsement signed by that key with the very same algorithm: chain and key are fine,
@@ -445,6 +476,116 @@ func main() {
 			run(e, variant{fmt.Sprintf("container^bit%d", bit), pe, b}, roots[0], times[0], "containerflip")
 		}
 	}
+	// 4. Two-call sessions ("start from a non-initial state"): the genuine endorsement is verified
+	// first, then a deviation is presented to the SAME verifier objects - one root pool, one
+	// options value, one validator closure, and (when the lengths agree) one recycled byte buffer.
+	// Anything a verifier remembers between calls (a cache of verified chains, a memo of the last
+	// accepted endorsement, retained caller memory) shows up here and nowhere in the one-shot cases.
+	type session struct {
+		name string
+		open func(rs rootSet, t time.Time) func(v variant, t time.Time) error
+	}
+	recycle := func(buf *[]byte, b []byte) []byte {
+		if len(*buf) == len(b) {
+			copy(*buf, b)
+			return *buf
+		}
+		*buf = append([]byte(nil), b...)
+		return *buf
+	}
+	sessions := []session{
+		{"session:verify.Endorsement", func(rs rootSet, t time.Time) func(variant, time.Time) error {
+			opts, buf := &verify.Options{RootsOfTrust: rs.pool()}, []byte{}
+			return func(v variant, t time.Time) error {
+				opts.Now = t
+				return verify.Endorsement(recycle(&buf, v.bin), opts)
+			}
+		}},
+		{"session:verify.EndorsementProto", func(rs rootSet, t time.Time) func(variant, time.Time) error {
+			opts := &verify.Options{RootsOfTrust: rs.pool()}
+			return func(v variant, t time.Time) error { opts.Now = t; return verify.EndorsementProto(v.end, opts) }
+		}},
+		{"session:SNPValidateFunc(blob)", func(rs rootSet, t time.Time) func(variant, time.Time) error {
+			opts, buf := &verify.Options{RootsOfTrust: rs.pool(), Now: t}, []byte{}
+			f := verify.SNPValidateFunc(opts)
+			return func(v variant, t time.Time) error { opts.Now = t; return f(att.Snp(m1, nil), recycle(&buf, v.bin)) }
+		}},
+		{"session:SNPFamilyValidateFunc(getter)", func(rs rootSet, t time.Time) func(variant, time.Time) error {
+			g := &getter{}
+			opts := &verify.Options{RootsOfTrust: rs.pool(), Now: t, Getter: g}
+			f := verify.SNPFamilyValidateFunc("11111111-2222-3333-4444-555555555555", opts)
+			return func(v variant, t time.Time) error {
+				opts.Now = t
+				g.body = recycle(&g.body, v.bin)
+				return f(att.Snp(m1, nil), nil)
+			}
+		}},
+		{"session:SevValidate(extras)", func(rs rootSet, t time.Time) func(variant, time.Time) error {
+			opts, buf := &gcetcbendorsement.SevValidateOptions{RootsOfTrust: rs.pool(), BasePolicy: base64policy()}, []byte{}
+			return func(v variant, t time.Time) error {
+				opts.Now = t
+				return gcetcbendorsement.SevValidate(ctx, att.Snp(m1, recycle(&buf, v.bin)), opts)
+			}
+		}},
+		{"session:TdxValidate(opts.Endorsement)", func(rs rootSet, t time.Time) func(variant, time.Time) error {
+			opts := &gcetcbendorsement.TdxValidateOptions{RootsOfTrust: rs.pool()}
+			return func(v variant, t time.Time) error {
+				opts.Now, opts.Endorsement = t, v.end
+				return gcetcbendorsement.TdxValidate(ctx, att.TdxQuote(nil), opts)
+			}
+		}},
+	}
+	var second []variant
+	second = append(second, structural...)
+	for bit := 0; bit < len(sig)*8; bit += 64 {
+		second = append(second, mk(fmt.Sprintf("sig^bit%d", bit), payload, att.Flip(sig, bit)))
+	}
+	for bit := 0; bit < len(payload)*8; bit += 64 {
+		second = append(second, mk(fmt.Sprintf("payload^bit%d", bit), att.Flip(payload, bit), sig))
+	}
+	nSess := 0
+	for _, se := range sessions {
+		for _, rs := range []rootSet{roots[0], roots[4]} {
+			for _, v := range second {
+				for _, vt := range []vtime{times[0], times[4]} {
+					se, rs, v, vt := se, rs, v, vt
+					if v.end == nil && strings.Contains(se.name, "Proto") {
+						continue
+					}
+					nSess++
+					id := fmt.Sprintf("ep=%s first=genuine@mid second=%s roots=%s time=%s", se.name, v.name, rs.name, vt.name)
+					jobs = append(jobs, func() {
+						r.Case(id, func() string {
+							var e1, e2 error
+							pan, _ := mc.Guard(func() {
+								call := se.open(rs, times[0].t)
+								e1 = call(structural[0], times[0].t)
+								e2 = call(v, vt.t)
+							})
+							r.Eval()
+							if pan || v.end == nil {
+								r.Outcome(se.name + ":panic-or-undecodable")
+								return "panic"
+							}
+							r.Validated()
+							ok, why := authentic(v.end, rs.pool(), vt.t, true)
+							if e2 == nil && !ok {
+								r.Violation(se.name+"/accepted-after-genuine:"+why, id,
+									fmt.Sprintf("%s accepted an endorsement that is not authentic (%s) when it was presented to the same verifier objects right after the genuine one: second=%s roots=%s time=%s", se.name, why, v.name, rs.name, vt.name),
+									map[string]any{"first_result": fmt.Sprint(e1), "reference": why})
+							}
+							if e2 == nil {
+								r.Nontrivial(id)
+							}
+							r.Outcome(se.name + map[bool]string{true: ":accept", false: ":reject"}[e2 == nil])
+							return fmt.Sprint(e1, "|", e2)
+						})
+					})
+				}
+			}
+		}
+	}
+	r.Set("two_call_sessions", nSess)
 	r.Set("signature_bits", len(sig)*8)
 	r.Set("payload_bits", len(payload)*8)
 	r.Set("structural_variants", len(structural))
